@@ -616,7 +616,36 @@ def r7_regex_escape_symmetry(ctx):
            witness="(= (str #\"\\d\") (str (read-string (pr-str #\"\\d\")))) is false")
 
 
+@rule("C03.R12", floor=2)
+def r12_namespace_prefix_is_decided_on_every_key(ctx):
+    """With *print-namespace-maps* a map is printed as #:ns{...} with the keys stripped of that
+    namespace; the reader puts it back on *every* un-namespaced key.  That is only the inverse if
+    every key that is printed really had the namespace: the scan that decides on the prefix looks at
+    all entries -- how many are printed depends on *print-length* and on *print-dup* (which ignores
+    it), so a scan bounded by either alone is wrong for the other -- and answers 'no shared
+    namespace' as soon as one key is not a named value of it."""
+    fn = ctx.fn(MAP, "map_lrepr")
+    chk = next((f for f in ast.walk(fn) if isinstance(f, P.FUNC) and f.name == "check_same_ns"), None)
+    if chk is None:
+        raise AnalysisError("anchor vanished: map_lrepr.check_same_ns")
+    loops = [l for l in ast.walk(chk) if isinstance(l, ast.For)]
+    if not loops:
+        raise AnalysisError("check_same_ns no longer loops over the entries")
+    it = loops[0].iter
+    full = isinstance(it, ast.Call) and P.un(it.func) == "entries" and not it.args
+    ctx.ob("C03.R12", f"{MAP}::map_lrepr.check_same_ns::the scan covers every entry", MAP, loops[0].lineno, full,
+           "" if full else f"the keys are scanned through `{P.un(it)[:60]}`, not through all entries: a key beyond the scanned prefix that lacks the namespace is printed bare inside #:ns{{...}} and reads back with the namespace added",
+           witness="(binding [*print-dup* true *print-namespace-maps* true *print-length* 1] (pr-str #py {:x/a 1 :x/b 2 :y 3})) => #py #:x{:a 1, :b 2, :y 3}, which reads back with :x/y")
+    # leaving the loop early is fine only once two different namespaces have been seen
+    brk = [b for b in ast.walk(loops[0]) if isinstance(b, (ast.Break, ast.Return))]
+    ok = all(any(isinstance(a, ast.If) and "len(nses) > 1" in P.un(a.test) for a in P.ancestors(b) if P.contains(loops[0], a)) for b in brk)
+    ctx.ob("C03.R12", f"{MAP}::map_lrepr.check_same_ns::the scan stops early only on a second namespace", MAP, loops[0].lineno, ok,
+           "" if ok else "the scan is left before all keys are seen for a reason other than having found two different namespaces")
+
+
 SELFTEST = [
+    {"name": "namespace scan bounded by *print-length*", "file": MAP, "expect": "C03.R12",
+     "old": "        for k, _ in entries():\n            if isinstance(k, INamed):\n                nses.add(k.ns)", "new": "        for k, _ in islice(entries(), kwargs[\"print_length\"] if isinstance(kwargs[\"print_length\"], int) else None):\n            if isinstance(k, INamed):\n                nses.add(k.ns)"},
     {"name": "imaginary literal without exponent (the repaired defect)", "file": RD, "expect": "C03.R11",
      "old": "complex_literal = re.compile(r\"-?(\\d+(?:\\.\\d*)?(?:[Ee][+\\-]?\\d+)?)J\")", "new": "complex_literal = re.compile(r\"-?(\\d+(?:\\.\\d*)?)J\")"},
     {"name": "special-number check through math.isinf for decimals too (the repaired defect)", "file": OBJ, "expect": "C03.R11",
